@@ -14,6 +14,7 @@ package sched
 
 import (
 	"runtime"
+	"sync"
 
 	"github.com/go-text/typesetting/verifsim"
 )
@@ -38,9 +39,16 @@ type Plan struct {
 	Switches []Switch `json:"switches,omitempty"`
 	// Order: the order in which tasks are started / resumed when a choice is needed.
 	Order []int `json:"order,omitempty"`
+	// SwitchAfterHold: a task is switched away from at the first yield point after it leaves a
+	// held section, so that the next task runs while those accesses are still inside the
+	// detector's history window
+	SwitchAfterHold bool `json:"switch_after_hold,omitempty"`
 }
 
 const noTask = -1
+
+// joined: end-of-simulation join (see taskMain)
+var joined sync.WaitGroup
 
 var (
 	turn   int // holder of the baton; noTask = coordinator
@@ -58,6 +66,9 @@ var (
 	Log    [4096]LogEntry
 	NLog   int
 	active bool
+	// held: switching suspended (see Hold); pending: a switch came due while held
+	held, pending bool
+	force         bool // switch at the next yield point (SwitchAfterHold)
 )
 
 type LogEntry struct {
@@ -147,6 +158,32 @@ func handoff(me, to int) {
 	arm(me)
 }
 
+// Hold suspends switching for the calling task: an operation that may block on real
+// synchronisation (sync.Once) must not be parked while it holds it, or the task that gets
+// the baton would block on it for ever. The tasks stay concurrent for the race detector.
+//
+//go:norace
+func Hold() { held = true }
+
+// Release ends a Hold; a switch that came due meanwhile happens at the next yield point.
+//
+//go:norace
+func Release() {
+	held = false
+	if !active {
+		return
+	}
+	if plan.SwitchAfterHold {
+		force = true
+		verifsim.Next = verifsim.N + 1
+		return
+	}
+	if pending {
+		pending = false
+		verifsim.Next = verifsim.N + 1
+	}
+}
+
 // onTick is verifsim.Slow: the tick counter reached the armed value.
 //
 //go:norace
@@ -155,8 +192,20 @@ func onTick() {
 		verifsim.Next = ^uint64(0)
 		return
 	}
+	if held {
+		pending = true
+		verifsim.Next = ^uint64(0)
+		return
+	}
 	me := turn
 	account(me)
+	if force {
+		force = false
+		if to := nextUnfinished(me, me); to != noTask {
+			handoff(me, to)
+			return
+		}
+	}
 	switch plan.Kind {
 	case "sweep":
 		if me == plan.A && !parked {
@@ -212,6 +261,11 @@ func taskMain(me int, f func()) {
 	arm(me)
 	f()
 	finish(me)
+	// the only synchronisation a task ever performs, after its last instruction: it orders the
+	// whole task before whatever the coordinator does after Run (resetting process-global state
+	// for the next simulation). Done releases, only the coordinator's Wait acquires: no edge
+	// between tasks.
+	joined.Done()
 }
 
 // Run executes the tasks under the plan and returns when all have finished.
@@ -232,9 +286,11 @@ func Run(tasks []func(), p Plan) {
 		OwnTicks[i] = 0
 	}
 	nextSw, NLog, parked = 0, 0, false
+	held, pending, force = false, false, false
 	verifsim.Slow = onTick
 	verifsim.Next = ^uint64(0)
 	turn = -2 // nobody yet
+	joined.Add(len(tasks))
 	for i := range tasks {
 		go taskMain(i, tasks[i])
 	}
@@ -249,6 +305,7 @@ func Run(tasks []func(), p Plan) {
 	waitTurn(noTask)
 	active = false
 	verifsim.Next = ^uint64(0)
+	joined.Wait()
 }
 
 // Ticks returns the ticks executed since the start of the current/last run.
